@@ -5,7 +5,7 @@
 #             {drop: tcp / hard reset / cease / UPDATE error / admin; reconnect: fails / same caps /
 #              GR v4 only / no GR; re-announce; EOR v4; EOR v6; restart timer fires; LLGR timer v4 / v6
 #              fires; forced down; late restart-timer handler; late LLGR-timer handler v4 / v6} after a prelude (session up, 4 routes incl. NO_LLGR and LLGR_STALE
-#              ones, EOR), for 6 GR/LLGR configurations; letters that do not apply in the current
+#              ones, EOR), for 7 GR/LLGR configurations (one with Add-Path receive: three path ids per prefix); letters that do not apply in the current
 #              state prune the branch; shard i of `nshards` takes the (config, 1st, 2nd letter) items = i mod nshards
 #   part=l1c  L1, directed exhaustive: the first helper cycle is fixed (7 ways it can end: all timers run out, one LLGR
 #             timer runs out then reconnect, End-of-RIB after a reconnect in the restart period, reconnect after the
@@ -44,7 +44,7 @@ CFG = dict(
                  "routes removed early by a failed reconnect; is_peer_restarting() while only an End-of-RIB of an empty family is awaited",
                  "L1 reproduces the table calls of session_loop's tail and run()'s handling of never-established connections; the variant in use is the one "
                  "that behaves like the real code (L2) on calibration probes, else L1 is inconclusive",
-                 "hold-timer expiry is exercised in L1 only; one peer, two families (IPv4/IPv6 unicast), no Add-Path"],
+                 "hold-timer expiry is exercised in L1 only; one peer, two families (IPv4/IPv6 unicast); Add-Path receive (path ids 0..3, AS_PATH-length ranks) in a third of the random configurations, one exhaustive configuration and the addpath-cycle profile"],
     # sized at about 1/5 of what the quick tier observes on the unchanged tree (seeds 1, 2)
     floor=dict(evaluations=100000, nontrivial=4000,
                counters={"l1x:complete-shards": 8, "l2:histories": 1200, "l2:steps-judged": 10000,
@@ -79,7 +79,16 @@ CFG = dict(
                          "cycle2:llgr-period-entered-after:restart-expiry-without-llgr": 30,
                          "cycle2:llgr-period-entered-after:forced-down": 50,
                          "cycle2:entered-after:llgr-expiry": 330, "cycle2:entered-after:restart-expiry-without-llgr": 400,
-                         "cycle3+:entered": 300}),
+                         "cycle3+:entered": 300,
+                         # Add-Path receive: several path ids per prefix, part of them re-announced by the next session
+                         "op:announce-extra-path-id": 25000, "op:withdraw-extra-path-id": 260,
+                         "addpath:fresh-path-beside-stale-sibling": 2900,
+                         "addpath:destinations-with-fresh-and-stale-siblings-at-purge": 1200,
+                         "addpath:destinations-with-fresh-and-stale-siblings-at-purge:fresh-ranks-first": 1000,
+                         "addpath:destinations-with-fresh-and-stale-siblings-at-purge:stale-ranks-first": 230,
+                         "addpath:destinations-with-fresh-and-stale-siblings-at-purge:llgr-stale-sibling": 700,
+                         "addpath:destinations-with-fresh-and-stale-siblings-at-purge:no-llgr-stale-sibling": 200,
+                         "l2:addpath:mixed-sibling-purges": 60, "l2:profile:addpath-cycle": 240}),
     # l2 first: the driver keeps the first witness per signature, and an end-to-end witness is the most convincing one
     quick=[e2("l2", _T, 4, 240, part="l2", count=1500),
            e2("l1x", _T, 12, 400, part="l1x", depth=5, nshards=12),
